@@ -50,7 +50,19 @@ def sh(cmd, **kw):
     return subprocess.run(cmd, capture_output=True, text=True, **kw)
 
 
+import queue
+SLOTS = queue.Queue()
+
+
 def run_one(k, site):
+    slot = SLOTS.get()
+    try:
+        return run_one_(k, site, slot)
+    finally:
+        SLOTS.put(slot)
+
+
+def run_one_(k, site, slot):
     rel, a, b, rep, key, oi = site
     wt = tempfile.mkdtemp(prefix="pq-mut.", dir="/tmp")
     shutil.rmtree(wt)
@@ -62,8 +74,11 @@ def run_one(k, site):
         open(p, "wb").write(data[:a] + rep.encode() + data[b:])
         line = data[:a].count(b"\n") + 1
         desc = "%s:%d %s: `%s` -> `%s`" % (rel, line, key.split("::")[-1], old.strip()[:40], rep.strip()[:20] or "(deleted)")
-        tgt = "/tmp/pq-mut-target-%d" % (k % JOBS)
-        t = sh(["cargo", "test", "--offline", "--features", "serde"], cwd=wt, env=dict(os.environ, CARGO_TARGET_DIR=tgt, CARGO_NET_OFFLINE="true"))
+        tgt = "/tmp/pq-mut-target-%d" % slot
+        t = sh(["timeout", "-k", "5", "180", "cargo", "test", "--offline", "--features", "serde"], cwd=wt, env=dict(os.environ, CARGO_TARGET_DIR=tgt, CARGO_NET_OFFLINE="true"))
+        if t.returncode in (124, 137):
+            sh(["pkill", "-f", tgt + "/debug/dep[s]"])
+            return desc, "killed-by-tests (hang)"
         if "error" in t.stderr and "could not compile" in t.stderr:
             return desc, "does-not-compile"
         if t.returncode != 0:
@@ -84,12 +99,12 @@ def run_one(k, site):
         if noticed:
             return desc, "noticed"
         c = sh([os.path.join(VERIF, "harness/cex/run.sh"), wt, "search", "any", "5", "30000", "120"],
-               env=dict(os.environ, PQ_CEX_WORK="/tmp/pq-mut-cex-%d" % (k % JOBS), PQ_CEX_TARGET="/tmp/pq-mut-cex-%d/target" % (k % JOBS), PQ_CEX_TIMEOUT="120"))
+               env=dict(os.environ, PQ_CEX_WORK="/tmp/pq-mut-cex-%d" % slot, PQ_CEX_TARGET="/tmp/pq-mut-cex-%d/target" % slot, PQ_CEX_TIMEOUT="120"))
         if c.returncode == 1 and "=>" in c.stdout:
             why = [l for l in c.stdout.split("\n") if l.strip().startswith("=>")]
             return desc, "GAP (behaviour changes, nothing noticed): " + (why[-1].strip()[:160] if why else "")
         c2 = sh([os.path.join(VERIF, "harness/cex/run.sh"), wt, "search", "C10", "5", "30000", "120"],
-                env=dict(os.environ, PQ_CEX_WORK="/tmp/pq-mut-cex-%d" % (k % JOBS), PQ_CEX_TARGET="/tmp/pq-mut-cex-%d/target" % (k % JOBS), PQ_CEX_TIMEOUT="120"))
+                env=dict(os.environ, PQ_CEX_WORK="/tmp/pq-mut-cex-%d" % slot, PQ_CEX_TARGET="/tmp/pq-mut-cex-%d/target" % slot, PQ_CEX_TIMEOUT="120"))
         if c2.returncode == 1 and "=>" in c2.stdout:
             why = [l for l in c2.stdout.split("\n") if l.strip().startswith("=>")]
             return desc, "GAP (fault history, nothing noticed): " + (why[-1].strip()[:160] if why else "")
@@ -105,6 +120,8 @@ if __name__ == "__main__":
     random.Random(seed).shuffle(all_sites)
     pick = all_sites[:n]
     print("%d mutation sites, %d sampled (seed %d)" % (len(all_sites), len(pick), seed), flush=True)
+    for i in range(JOBS):
+        SLOTS.put(i)
     res = []
     with ThreadPoolExecutor(max_workers=JOBS) as ex:
         for desc, verdict in ex.map(lambda x: run_one(*x), enumerate(pick)):
